@@ -18,6 +18,7 @@ from fractions import Fraction
 from lib import core
 
 DRIVER = "drv_pdf"
+LEAN_TARGETS = ["OmplModel.Props.C12", DRIVER]
 HFLAGS = ("-D_GLIBCXX_ASSERTIONS", "-D_GLIBCXX_SANITIZE_VECTOR")
 EPS = Fraction(1, 2 ** 53)
 B = core.f2bits
@@ -64,7 +65,31 @@ def w_denormal(r):
     return float(r.range(1, 3))
 
 
-WGENS = {"int": w_int, "dyadic": w_dyadic, "ratio": w_ratio, "nonrep": w_nonrep, "denormal": w_denormal}
+def w_tiny(scale_exp, dyadic_bits):
+    """small integers / dyadics times 2^scale_exp: exactly representable sums at a tiny magnitude."""
+    def g(r):
+        if r.chance(1, 5):
+            return 0.0
+        if dyadic_bits and r.chance(1, 2):
+            return math.ldexp(r.range(1, 4096) / float(1 << r.range(0, dyadic_bits)), scale_exp)
+        return math.ldexp(float(r.range(1, 8)), scale_exp)
+    return g
+
+
+def w_mixed(r):
+    """one weight class at scale 1, the rest at 2^-60 (sums are NOT representable: rounding regime with
+    node-relative budgets)."""
+    if r.chance(1, 6):
+        return 0.0
+    if r.chance(1, 6):
+        return float(r.range(1, 4))
+    return math.ldexp(float(r.range(1, 64)), -60)
+
+
+WGENS = {"int": w_int, "dyadic": w_dyadic, "ratio": w_ratio, "nonrep": w_nonrep, "denormal": w_denormal,
+         "tiny60": w_tiny(-60, 12), "tiny200": w_tiny(-200, 12), "tinysub": w_tiny(-1066, 4),
+         "tinysubint": w_tiny(-1073, 0), "huge300": w_tiny(300, 12), "mixed": w_mixed}
+TINY_MODES = ("tiny60", "tiny200", "tinysub", "tinysubint", "huge300")
 EXACT_MODES = ("int", "dyadic")
 
 
@@ -158,8 +183,24 @@ class Gen:
                     out.append(c)
         return out
 
-    def sweep(self, ulps=True, cap=None):
-        bs = self.boundaries(ulps)
+    def interiors(self):
+        """r at the midpoint of every non-empty interval (strictly inside (0,1))."""
+        ws = [Fraction(self.w[h]) for h in self.order]
+        tot = sum(ws)
+        out = []
+        if tot <= 0:
+            return out
+        acc = Fraction(0)
+        for wv in ws:
+            if wv > 0:
+                r = float((acc + wv / 2) / tot)
+                if 0.0 < r < 1.0:
+                    out.append(r)
+            acc += wv
+        return out
+
+    def sweep(self, ulps=True, cap=None, interior=False):
+        bs = self.boundaries(ulps) + (self.interiors() if interior else [])
         if cap is not None and len(bs) > cap:
             self.rng.shuffle(bs)
             bs = bs[:cap]
@@ -243,6 +284,58 @@ def gen_drift(rng):
     return g.lines
 
 
+def gen_zero_toggle(rng, mode):
+    """tiny-scale / mixed-scale: build n elements, then for several elements: update to 0, probe every
+    interval boundary and interior point (zero weight must never be drawn for r in (0,1)), update back
+    to a fresh weight, probe again; interleaved with removals and adds."""
+    g = Gen(rng, mode)
+    n = rng.choice([2, 3, 4, 5, 7, 8, 9, 16, 17, 33])
+    if mode == "mixed":
+        g.add(float(rng.range(1, 4)))
+        for _ in range(n - 1):
+            g.add(math.ldexp(float(rng.range(1, 64)), -60))
+    else:
+        for _ in range(n):
+            g.add()
+    for _ in range(rng.range(3, 8)):
+        if not g.order:
+            g.add()
+        h = rng.choice(g.order)
+        g.upd(h, 0.0)
+        g.sweep(ulps=rng.chance(1, 2), cap=40, interior=True)
+        g.wq(h)
+        k = rng.below(4)
+        if k == 0:
+            g.rm(h)
+        elif k == 1:
+            g.add()
+        if h in g.w:
+            w = g.wg(rng)
+            g.upd(h, w)
+            g.sweep(ulps=False, cap=30, interior=True)
+    return g.lines
+
+
+def rescale(script, k):
+    """multiply every weight of the script by 2^k; None if that is not exact for some weight
+    (overflow / underflow).  r values are scale-invariant."""
+    out = [script[0]]
+    for ln in script[1:]:
+        t = ln.split()
+        if well_formed(t) and t[0] in ("add", "upd"):
+            w = F(t[-1])
+            if math.isnan(w) or math.isinf(w):
+                return None
+            w2 = math.ldexp(w, k)
+            if math.isinf(w2) or math.ldexp(w2, -k) != w:
+                return None
+            t[-1] = B(w2)
+            out.append(" ".join(t))
+        else:
+            out.append(ln)
+    return out
+
+
 def gen_malformed(rng):
     g = Gen(rng, "int")
     bad = ["add", "add x", "add 1 2", "upd 0", "upd x 0", "rm", "rm -1", "rm 1.5", "smp", "smp 0.5", "w", "w a",
@@ -299,40 +392,84 @@ def parse_dump(d):
     return n, order, ix, rows
 
 
-def is_exact_weight(w):
-    """multiples of 2^-16 up to 2^16: every sum of <= 1024 of them is a double."""
-    return w == 0.0 or (0 < w <= 65536.0 and (w * 65536.0) == math.floor(w * 65536.0))
+Q = Fraction(1, 2 ** 1074)     # the subnormal quantum (absolute rounding unit below 2^-1022)
+
+
+def low_bit_exp(w):
+    """exponent of the lowest set bit of the double w != 0 (w is an odd multiple of 2^that)."""
+    n, d = abs(w).as_integer_ratio()
+    return ((n & -n).bit_length() - 1) - (d.bit_length() - 1)
 
 
 class Oracle:
-    """the property, evaluated on the implementation's output lines."""
+    """the property, evaluated on the implementation's output lines.
 
-    def __init__(self):
+    Scale-free.  *Exact regime*: since the tree was last empty every weight is a multiple of g = 2^low
+    (low = the smallest lowest-set-bit exponent seen) and twice the largest total stayed below 2^53 * g;
+    then every value a correct implementation computes (sums, differences of history weights) is a
+    multiple of g below 2^53 g, hence a double, at ANY magnitude: no rounding except fl(r*total).
+    *Rounding regime*: every tree cell carries an error budget that grows, each time an edit changes
+    the set of leaves below it, by 4 * 2^-53 * (sum of |leaf weights| below it, before or after the
+    edit) (+ 4 subnormal quanta): a few ulps of that node per edit of that node, never an absolute
+    epsilon."""
+
+    def __init__(self, cells=True):
+        self.cells = cells    # check the upper tree rows against the exact sums (internal invariant)
+        self.kind = "spec"    # kind of the last failure returned by step()
         self.spec = {}        # handle -> weight (float)
         self.next = 0
-        self.exact = True     # all weights since the structure was last empty are exact-regime
-        self.K = 0            # mutating ops since it was last empty
-        self.M = Fraction(0)  # bound on magnitudes seen since then
+        self.low = None       # smallest lowest-set-bit exponent of a non-zero weight since last empty
+        self.M = Fraction(0)  # twice the largest sum of |weights| since last empty
+        self.ids = []         # per row: content id of each cell (hash of the (handle, weight) leaves below)
+        self.S = []           # per row: exact sum of |leaf weights| below each cell
+        self.budget = []      # per row: rounding-error budget of each cell
         self.stats = {}
+
+    @property
+    def exact(self):
+        return self.low is None or self.M < Fraction(2) ** (53 + self.low)
 
     def bump(self, key):
         self.stats[key] = self.stats.get(key, 0) + 1
 
     def pre_mut(self):
         if not self.spec:                      # the tree was cleared: no history left in it
-            self.exact, self.K, self.M = True, 0, Fraction(0)
+            self.low, self.M = None, Fraction(0)
+            self.ids, self.S, self.budget = [], [], []
 
     def post_mut(self, w=None):
-        self.K += 1
-        if w is not None and not is_exact_weight(w):
-            self.exact = False
-        if len(self.spec) > 1024:
-            self.exact = False
+        if w is not None and w != 0 and not (math.isinf(w) or math.isnan(w)):
+            e = low_bit_exp(w)
+            self.low = e if self.low is None else min(self.low, e)
         tot = sum(Fraction(abs(v)) for v in self.spec.values())
         self.M = max(self.M, 2 * tot)
 
-    def tol_cell(self):
-        return 3 * self.K * EPS * self.M
+    def rebudget(self, order):
+        """after an edit: new content ids / sums / budgets for the tree over `order` (the implementation's
+        element order, already checked to be a permutation of the surviving handles)."""
+        if not order:
+            self.ids, self.S, self.budget = [], [], []
+            return
+        ids = [[hash((h, B(self.spec[h]))) for h in order]]
+        S = [[Fraction(abs(self.spec[h])) for h in order]]
+        while len(ids[-1]) > 1:
+            c, cs = ids[-1], S[-1]
+            m = (len(c) + 1) // 2
+            ids.append([hash(tuple(c[2 * j:2 * j + 2])) for j in range(m)])
+            S.append([sum(cs[2 * j:2 * j + 2], Fraction(0)) for j in range(m)])
+        bud = [[Fraction(0)] * len(order)]
+        for lvl in range(1, len(ids)):
+            row = []
+            for j in range(len(ids[lvl])):
+                had = lvl < len(self.ids) and j < len(self.ids[lvl])
+                if had and self.ids[lvl][j] == ids[lvl][j]:
+                    row.append(self.budget[lvl][j])
+                elif had:
+                    row.append(self.budget[lvl][j] + 4 * EPS * (max(self.S[lvl][j], S[lvl][j]) + self.budget[lvl][j]) + 4 * Q)
+                else:
+                    row.append(sum(bud[lvl - 1][2 * j:2 * j + 2], Fraction(0)) + 2 * EPS * S[lvl][j] + 2 * Q)
+            bud.append(row)
+        self.ids, self.S, self.budget = ids, S, bud
 
     def step(self, line, out):
         """returns None or a failure description."""
@@ -347,6 +484,7 @@ class Oracle:
         op = t[0]
         exp = None
         sample = None
+        mutated = False
         if op == "add":
             w = F(t[1])
             if w < 0:
@@ -357,6 +495,7 @@ class Oracle:
                 exp = "h=%d" % self.next
                 self.next += 1
                 self.post_mut(w)
+                mutated = True
         elif op == "upd":
             h = int(t[1])
             if h in self.spec:
@@ -364,6 +503,7 @@ class Oracle:
                 self.spec[h] = F(t[2])
                 exp = "ok"
                 self.post_mut(F(t[2]))
+                mutated = True
             else:
                 exp = "dead"
         elif op == "rm":
@@ -372,6 +512,7 @@ class Oracle:
                 del self.spec[h]
                 exp = "ok"
                 self.post_mut()
+                mutated = True
             else:
                 exp = "dead"
         elif op == "w":
@@ -380,6 +521,7 @@ class Oracle:
         elif op == "clear":
             self.spec = {}
             exp = "ok"
+            mutated = True
         elif op == "smp":
             r = F(t[1])
             if not self.spec:
@@ -401,6 +543,8 @@ class Oracle:
             return "stored elements %s differ from the surviving handles %s" % (order, sorted(self.spec))
         if ix != [str(i) for i in range(n)]:
             return "an element's index_ does not equal its position: %s" % ",".join(ix)
+        if mutated:
+            self.rebudget(order)
         # ---- tree shape
         if n == 0:
             if rows:
@@ -419,18 +563,23 @@ class Oracle:
             while len(exact_rows[-1]) > 1:
                 c = exact_rows[-1]
                 exact_rows.append([sum(c[2 * j:2 * j + 2], Fraction(0)) for j in range((len(c) + 1) // 2)])
-            tol = Fraction(0) if self.exact else self.tol_cell()
-            for lvl in range(1, len(rows)):
+            exact = self.exact
+            for lvl in range(1, len(rows) if self.cells else 0):
                 for j, bits in enumerate(rows[lvl]):
                     v = F(str(bits))
                     if math.isnan(v) or math.isinf(v):
                         return "tree cell row %d col %d is %r" % (lvl, j, v)
+                    tol = Fraction(0) if exact else self.budget[lvl][j]
                     if abs(Fraction(v) - exact_rows[lvl][j]) > tol:
+                        self.kind = "cells"
                         return ("tree cell row %d col %d = %r but its leaves sum to %r (%s)"
                                 % (lvl, j, v, float(exact_rows[lvl][j]),
-                                   "exact arithmetic" if self.exact else "tolerance %.3g" % float(tol)))
+                                   "exact arithmetic" if exact else
+                                   "off by %.3g, rounding budget of this node %.3g" %
+                                   (float(abs(Fraction(v) - exact_rows[lvl][j])), float(tol))))
         # ---- the selection rule
         if sample is not None:
+            self.kind = "sample"
             if not res.startswith("h=") or not res[2:].isdigit():
                 return "sample returned %r" % res
             h = int(res[2:])
@@ -461,7 +610,16 @@ class Oracle:
                 if 0 < r < 1 and x == 0:
                     self.bump("smp:product-underflow")
             else:
-                T = 32 * (3 * self.K + 1) * EPS * self.M
+                # budgets of the head and of every cell the descent to position i compares or subtracts,
+                # plus one rounding of the product and of each subtraction (relative to the current total)
+                top = len(self.budget) - 1
+                T = self.budget[top][0]
+                for lvl in range(top):
+                    pnode = i >> lvl
+                    T += self.budget[lvl][pnode]
+                    if (pnode ^ 1) < len(self.budget[lvl]):
+                        T += self.budget[lvl][pnode ^ 1]
+                T += (top + 2) * (2 * EPS * (self.S[top][0] + self.budget[top][0]) + Q)
                 x = Fraction(r) * tot
                 self.bump("smp:rounding-regime")
                 if not (prefix[i] - T <= x <= prefix[i + 1] + T):
@@ -472,9 +630,9 @@ class Oracle:
         return None
 
 
-def oracle(script, out, rc=0, err=""):
-    """returns (None | (step, what), stats)."""
-    o = Oracle()
+def oracle(script, out, rc=0, err="", cells=True):
+    """returns (None | (step, what, kind), stats); kind in crash kinds / "cells" / "sample" / "spec"."""
+    o = Oracle(cells)
     for i, line in enumerate(script[1:]):
         if i >= len(out):
             tail = " ".join((err or "").strip().splitlines()[-6:])[-700:]
@@ -485,9 +643,10 @@ def oracle(script, out, rc=0, err=""):
             else:
                 kind = "crash"
             return (i, "implementation stopped at %r: %s, exit %s: %s" % (line, kind, rc, tail), kind), o.stats
+        o.kind = "spec"
         f = o.step(line, out[i])
         if f is not None:
-            return (i, f, "spec"), o.stats
+            return (i, f, o.kind), o.stats
     if rc != 0:
         return (len(script) - 1, "harness exit code %s: %s" % (rc, (err or "")[-400:]), "crash"), o.stats
     return None, o.stats
@@ -506,9 +665,21 @@ def record_of(script, fail):
 
 
 def targeted_search(ck, hbin, script, d):
-    """model and implementation disagree at output line d but the oracle is satisfied: probe the state
-    right after the disagreement (every interval boundary +- ulp, r = 0/1, every live weight) and
-    after one more removal / update / add, looking for a property failure."""
+    """model and implementation disagree at output line d but the oracle is satisfied.  Aimed search for
+    a property failure: (1) the same script with every weight rescaled by 2^-60 and 2^+60 (exact
+    transformations of the expected behaviour; an absolute threshold or epsilon in the code is not
+    scale-invariant); (2) at each of the three scales, probe the state right after the disagreement:
+    every interval boundary +- ulp, every interval midpoint, r = 0/1, every live weight, and the same
+    after one more removal / update-to-0 / update / add at each position."""
+    for k in (-60, 60):
+        s2 = rescale(script, k)
+        if s2 is None:
+            continue
+        impl2, rc2, err2, _ = run_script(ck, hbin, s2)
+        ck.count("search:rescaled-scripts-tried")
+        f2, _ = oracle(s2, impl2, rc2, err2)
+        if f2 is not None:
+            return s2, f2
     impl, rc, err, _ = run_script(ck, hbin, script[:d + 2])
     if len(impl) <= d:
         return None
@@ -521,27 +692,58 @@ def targeted_search(ck, hbin, script, d):
     g.order = list(order)
     g.w = {h: F(str(b)) for h, b in zip(order, rows[0])} if rows else {}
     g.next = max(order) + 1 if order else 0
-    conts = []
-    base = []
     g.lines = []
-    g.sweep()
+    g.sweep(interior=True)
     g.smp(0.0)
     g.smp(1.0)
     for h in order:
         g.wq(h)
     base = list(g.lines)
-    conts.append(base)
+    conts = [base]
     for h in order[:40]:
         conts.append(["rm %d" % h] + base)
-        conts.append(["upd %d %s" % (h, B(2.0))] + base)
+        conts.append(["upd %d %s" % (h, B(0.0))] + base)
+        conts.append(["upd %d %s" % (h, B(2.0 * g.w.get(h, 1.0) + 1.0))] + base)
     conts.append(["add " + B(1.0)] + base)
+    for k in (0, -60, 60):
+        for c in conts:
+            # boundaries were computed for the state at d; after an extra op they are merely good probes
+            s2 = rescale(script[:d + 2] + c, k) if k else script[:d + 2] + c
+            if s2 is None:
+                break
+            impl2, rc2, err2, _ = run_script(ck, hbin, s2)
+            ck.count("search:continuations-tried")
+            f2, _ = oracle(s2, impl2, rc2, err2)
+            if f2 is not None:
+                return s2, f2
+    return None
+
+
+def sample_consequence(ck, hbin, script, i, impl):
+    """script's op i left a wrong inner sum; probe every boundary +- ulp and interval midpoint there (and
+    after setting each element to 0) with the cell check off, to exhibit a failing sample."""
+    try:
+        n, order, ix, rows = parse_dump(impl[i].partition(" | ")[2])
+    except Exception:  # noqa
+        return None
+    g = Gen(ck.rng.fork("conseq%d" % ck.traces_validated), "int")
+    g.order, g.next = list(order), (max(order) + 1 if order else 0)
+    g.w = {h: F(str(b)) for h, b in zip(order, rows[0])} if rows else {}
+    g.lines = []
+    g.sweep(interior=True)
+    conts = [list(g.lines)]
+    for h in order[:24]:
+        g2 = Gen(ck.rng, "int")
+        g2.order, g2.next, g2.w, g2.lines = list(order), g.next, dict(g.w), []
+        g2.upd(h, 0.0)
+        g2.sweep(interior=True)
+        conts.append(g2.lines)
     for c in conts:
-        # boundaries were computed for the state at d; after an extra op they are merely good probes
-        s2 = script[:d + 2] + c
+        s2 = script[:i + 2] + c
         impl2, rc2, err2, _ = run_script(ck, hbin, s2)
-        ck.count("search:continuations-tried")
-        f2, _ = oracle(s2, impl2, rc2, err2)
-        if f2 is not None:
+        ck.count("search:sample-consequence-tried")
+        f2, _ = oracle(s2, impl2, rc2, err2, cells=False)
+        if f2 is not None and f2[2] == "sample":
             return s2, f2
     return None
 
@@ -575,17 +777,26 @@ def judge(ck, hbin, script, tag, result):
         if found:
             script, fail = found
             impl, rc, err, model = run_script(ck, hbin, script)
+    if fail is not None and fail[2] == "cells":
+        # an inner sum is wrong: look for the observable consequence (a sample that breaks the selection
+        # rule or draws a zero-weight element) right after that op and prefer reporting that
+        ext = sample_consequence(ck, hbin, script, fail[0], impl)
+        if ext:
+            script, fail = ext
+            impl, rc, err, model = run_script(ck, hbin, script)
+            ck.count("cells-failure-extended-to-sample-failure")
     if fail is not None:
         kind = fail[2]
+        cells = kind != "sample"
 
         def still(lines):
             s = [script[0]] + lines
             o, r, e, _m = run_script(ck, hbin, s)
-            f, _ = oracle(s, o, r, e)
+            f, _ = oracle(s, o, r, e, cells)
             return f is not None and f[2] == kind
         small = [script[0]] + core.ddmin(script[1:], still)
         o, r, e, m = run_script(ck, hbin, small)
-        f, _ = oracle(small, o, r, e)
+        f, _ = oracle(small, o, r, e, cells)
         f = f or fail
         mold = ck.run_bin(ck.driver(DRIVER), ["pdf old"] + small[1:])[0]
         ck.report(record_of(small, f), script=small,
@@ -634,6 +845,12 @@ def plan(ck):
         for i in range(nrand):
             r = ck.rng.fork("rand-%s-%d" % (m, i))
             out.append(("random-" + m, gen_random(r, r.choice([15, 60, 200, 500]), m)))
+    for m in TINY_MODES + ("mixed",):
+        for i in range(6 if quick else 60):
+            r = ck.rng.fork("rand-%s-%d" % (m, i))
+            out.append(("random-" + m, gen_random(r, r.choice([15, 60, 200]), m)))
+        for i in range(8 if quick else 80):
+            out.append(("zero-toggle-" + m, gen_zero_toggle(ck.rng.fork("zt-%s-%d" % (m, i)), m)))
     for i in range(40 if quick else 400):
         out.append(("drift", gen_drift(ck.rng.fork("drift%d" % i))))
     for n in range(1, 34):
@@ -649,8 +866,9 @@ def plan(ck):
 
 
 def run(ck):
-    ck.rule = ("scripts of add/update/remove/clear/sample/getWeight (corpus; random mixes over five weight classes: small "
-               "integers, dyadics, ratios up to 2^100, non-representable sums, denormals; drift-directed scripts; removal at "
+    ck.rule = ("scripts of add/update/remove/clear/sample/getWeight (corpus; random mixes over weight classes: small "
+               "integers, dyadics, ratios up to 2^100, non-representable sums, denormals, tiny-scale (dyadics times 2^-60, "
+               "2^-200, subnormal-adjacent, 2^300) and mixed-scale; update-to-zero-and-back scripts; drift-directed scripts; removal at "
                "every position for every n <= 33 followed by samples at every interval boundary; malformed lines); a script is "
                "non-trivial if it removes an element from a structure holding >= 3; distinct by script text")
     ck.trusted += ["harness/pdf.cpp opens `private` of PDF.h for its own translation unit to read data_, tree_ and index_",
@@ -659,11 +877,13 @@ def run(ck):
                    "Python float multiplication equals the C++ double multiplication (IEEE-754 binary64) in the oracle's fl(r*total)"]
     ck.assumptions += ["weights passed to add/update are >= 0 and finite; r is not NaN (the API contract)",
                        "use of a removed element handle is outside the contract and not exercised on the real code",
-                       "the selection rule is claimed exactly where all sums are exactly representable, and up to the stated "
-                       "rounding bound 32(3K+1)*2^-53*M otherwise (K edits, M twice the largest total since last empty)",
+                       "the selection rule and the tree sums are claimed exactly wherever all partial sums are exactly representable "
+                       "at any scale (every weight a multiple of g=2^low, twice the largest total < 2^53 g); otherwise up to a "
+                       "per-node rounding budget: + 4*2^-53*(sum of |leaf weights| below the node, before/after) per edit that "
+                       "changes the node's leaves (history-dependent, relative to the node, no absolute epsilon)",
                        "total weight 0: any surviving element may be returned (the rule has no interval to offer)"]
-    ck.lean_build(["OmplModel.Props.C12", DRIVER])
-    ck.audit()
+    ck.lean_build(LEAN_TARGETS)
+    ck.audit(roots=["Drv.Pdf"])
     if ck.tier == "thorough" and ck.lean_ok:
         ck.leanchecker(["OmplModel.Props.C12"])
     hbin = build(ck)
